@@ -3,9 +3,9 @@ import ast
 
 import z3
 
-from .sorts import (SV, PyVal, PyTuple, Closure, BoundMethod, ModuleRef, ClassRef, SpecFn, INT, BOOL, STR, REAL, VAL, NONE,
+from .sorts import (ArrT, SV, PyVal, PyTuple, Closure, BoundMethod, ModuleRef, ClassRef, SpecFn, INT, BOOL, STR, REAL, VAL, NONE,
                     NONE_V, RefT, SeqT, SetT, MapT, TupT, Val, Ref, null, zsort, fresh, mk_bool, mk_int, mk_str, fresh_name)
-from .values import (OutsideSubset, coerce, box, unbox, py_eq, truthy, ite, tup_items, empty_map, join_sort, is_ref,
+from .values import (nth, OutsideSubset, coerce, box, unbox, py_eq, truthy, ite, tup_items, empty_map, join_sort, is_ref,
                      int_to_str, str_to_int, is_int_literal, default_term)
 from .state import St, PyRaise, PathEnd
 
@@ -244,6 +244,9 @@ class CallMixin(object):
         ctor = self.reg.class_info(cls, 'ctor')
         if ctor is not None:
             return self.call_contract(self.reg.contracts[ctor], args, kwargs, st)
+        variants = self.reg.class_info(cls, 'init_variants')
+        if variants is not None:
+            ct = self.reg.contracts[variants[len(args) + len(kwargs)]]
         obj = self.allocate(st, cls)
         if ct is not None:
             self.call_contract(ct, [obj] + args, kwargs, st)
@@ -508,7 +511,7 @@ class CallMixin(object):
             return v
         seq = self.as_seq(v, st)
         x = z3.Const(fresh_name('sx'), zsort(seq.sort.elem))
-        return SV(SetT(seq.sort.elem), z3.Lambda([x], z3.Contains(seq.t, z3.Unit(x))))
+        return SV(SetT(seq.sort.elem), z3.Lambda([x], self.seq_contains(seq, SV(seq.sort.elem, x))))
 
     bi_frozenset = bi_set
 
@@ -526,9 +529,9 @@ class CallMixin(object):
                 return self.call_contract(m, [v], {}, st)
         seq = self.as_seq(v, st)
         if len(args) > 1:
-            return ite(z3.Length(seq.t) > 0, SV(seq.sort.elem, seq.t[0]), args[1])
+            return ite(z3.Length(seq.t) > 0, SV(seq.sort.elem, nth(seq.t, 0)), args[1])
         self.raise_if(st, z3.Length(seq.t) == 0, 'StopIteration', 'next() on exhausted iterator')
-        return SV(seq.sort.elem, seq.t[0])
+        return SV(seq.sort.elem, nth(seq.t, 0))
 
     def bi_reversed(self, args, kwargs, st, node):
         v = args[0]
@@ -547,7 +550,7 @@ class CallMixin(object):
         n = z3.If(z3.Length(a.t) < z3.Length(b.t), z3.Length(a.t), z3.Length(b.t))
         i = z3.Int(fresh_name('zi'))
         st.assume(z3.Length(r.t) == n)
-        st.assume(z3.ForAll([i], z3.Implies(z3.And(0 <= i, i < n), r.t[i] == ts.z().mk(a.t[i], b.t[i]))))
+        st.assume(z3.ForAll([i], z3.Implies(z3.And(0 <= i, i < n), nth(r.t, i) == ts.z().mk(nth(a.t, i), nth(b.t, i)))))
         return r
 
     def bi_enumerate(self, args, kwargs, st, node):
@@ -556,7 +559,7 @@ class CallMixin(object):
         r = fresh(SeqT(ts), 'enum')
         i = z3.Int(fresh_name('ei'))
         st.assume(z3.Length(r.t) == z3.Length(a.t))
-        st.assume(z3.ForAll([i], z3.Implies(z3.And(0 <= i, i < z3.Length(a.t)), r.t[i] == ts.z().mk(i, a.t[i]))))
+        st.assume(z3.ForAll([i], z3.Implies(z3.And(0 <= i, i < z3.Length(a.t)), nth(r.t, i) == ts.z().mk(i, nth(a.t, i)))))
         return r
 
     def bi_getattr(self, args, kwargs, st, node):
@@ -652,6 +655,32 @@ class CallMixin(object):
     def bi_int_str(self, args, kwargs, st, node):
         return SV(STR, int_to_str(coerce(args[0], INT).t))
 
+    def bi_arr_set(self, args, kwargs, st, node):
+        a, k, v = args
+        return SV(a.sort, z3.Store(a.t, coerce(k, a.sort.k).t, coerce(v, a.sort.v).t))
+
+    def bi_arr_dec_above(self, args, kwargs, st, node):
+        """arr_dec_above(a, i): positions greater than i move down by one"""
+        a, i = args
+        x = z3.Const(fresh_name('ax'), zsort(a.sort.k))
+        return SV(a.sort, z3.Lambda([x], z3.If(z3.Select(a.t, x) > i.t, z3.Select(a.t, x) - 1, z3.Select(a.t, x))))
+
+    def bi_seq_without(self, args, kwargs, st, node):
+        """seq_without(s, i): s with position i removed"""
+        s, i = args
+        return self.seq_remove_at(st, s, i.t)
+
+    def bi_seq_take(self, args, kwargs, st, node):
+        s, i = args
+        return SV(s.sort, z3.Extract(s.t, 0, i.t))
+
+    def bi_seq_drop(self, args, kwargs, st, node):
+        s, i = args
+        return SV(s.sort, z3.Extract(s.t, i.t, z3.Length(s.t) - i.t))
+
+    def bi_allocated(self, args, kwargs, st, node):
+        return mk_bool(z3.And(args[0].t != null, self.allocated(st, args[0].t)))
+
     def bi_is_none(self, args, kwargs, st, node):
         return mk_bool(py_eq(args[0], NONE_V))
 
@@ -717,7 +746,7 @@ class CallMixin(object):
                     es = decl.elem if isinstance(decl, SeqT) else (args[0].sort if not isinstance(args[0], PyTuple) else args[0].sort)
                     new = SV(SeqT(es), z3.Unit(coerce(args[0], es).t))
                 else:
-                    new = SV(s, z3.Concat(recv.t, z3.Unit(coerce(args[0], s.elem).t)))
+                    new = self.seq_append(st, recv, coerce(args[0], s.elem))
                 self.store_back(fnode, new, st)
                 return NONE_V
             if name == 'extend':
@@ -750,7 +779,7 @@ class CallMixin(object):
                 if args:
                     raise OutsideSubset('list.pop(i)')
                 self.store_back(fnode, SV(s, z3.Extract(recv.t, 0, n - 1)), st)
-                return SV(s.elem, recv.t[n - 1])
+                return SV(s.elem, nth(recv.t, n - 1))
         if isinstance(s, MapT):
             if name in ('keys', '__iter__'):
                 return self.as_seq(recv, st)
@@ -761,7 +790,7 @@ class CallMixin(object):
                 r = fresh(SeqT(s.v), 'values')
                 i = z3.Int(fresh_name('vi'))
                 st.assume(z3.Length(r.t) == z3.Length(keys.t))
-                st.assume(z3.ForAll([i], z3.Implies(z3.And(0 <= i, i < z3.Length(keys.t)), r.t[i] == z3.Select(recv.c['val'], keys.t[i]))))
+                st.assume(z3.ForAll([i], z3.Implies(z3.And(0 <= i, i < z3.Length(keys.t)), nth(r.t, i) == z3.Select(recv.c['val'], nth(keys.t, i)))))
                 return r
             if name == 'items':
                 if s.k is None:
@@ -772,7 +801,7 @@ class CallMixin(object):
                 i = z3.Int(fresh_name('ii'))
                 st.assume(z3.Length(r.t) == z3.Length(keys.t))
                 st.assume(z3.ForAll([i], z3.Implies(z3.And(0 <= i, i < z3.Length(keys.t)),
-                                                    r.t[i] == ts.z().mk(keys.t[i], z3.Select(recv.c['val'], keys.t[i])))))
+                                                    nth(r.t, i) == ts.z().mk(nth(keys.t, i), z3.Select(recv.c['val'], nth(keys.t, i))))))
                 return r
             if name == 'get':
                 if s.k is None:
